@@ -276,7 +276,10 @@ struct TopoMachine : Machine {
           bool eq = ta == tb;
           if (!eq) { std::string la, lb; diff_line(ta, tb, la, lb); viol(w, own, "replica.lockstep_diverged", "the same op applied to both twins made them differ: '%s' vs '%s'", la.substr(0, 700).c_str(), lb.substr(0, 700).c_str()); }
         } else {
-          bool eq = kind == 3 ? false : A.last.text_norm(kind != 1) == T.last.text_norm(kind != 1);
+          // an op applied to one twin only ends the twin relation, unless it is a pure query (per-op dumps may be tree-only in lazy runs,
+          // so "nothing visible changed" is not evidence that nothing changed)
+          bool query = o.kind == "dist_get" || o.kind == "mem_query" || o.kind == "kind_query" || o.kind == "mem_local" || o.kind == "diff" || o.kind == "dist_transform";
+          bool eq = kind != 3 && query && A.last.text_norm(kind != 1) == T.last.text_norm(kind != 1);
           if (!eq) { A.twin = T.twin = -1; }
         }
       }
